@@ -61,13 +61,17 @@ type modeT struct {
 	opts func() []openapi3.SchemaValidationOption
 }
 
-func customizer(e *openapi3.SchemaError) string { return "custom:" + e.SchemaField }
+func customizer(e *openapi3.SchemaError) string      { return "custom:" + e.SchemaField }
 func emptyCustomizer(e *openapi3.SchemaError) string { return "" }
 
 var modes = []modeT{
 	{"default", func() []openapi3.SchemaValidationOption { return nil }},
-	{"failfast", func() []openapi3.SchemaValidationOption { return []openapi3.SchemaValidationOption{openapi3.FailFast()} }},
-	{"multi", func() []openapi3.SchemaValidationOption { return []openapi3.SchemaValidationOption{openapi3.MultiErrors()} }},
+	{"failfast", func() []openapi3.SchemaValidationOption {
+		return []openapi3.SchemaValidationOption{openapi3.FailFast()}
+	}},
+	{"multi", func() []openapi3.SchemaValidationOption {
+		return []openapi3.SchemaValidationOption{openapi3.MultiErrors()}
+	}},
 	{"multi+custom", func() []openapi3.SchemaValidationOption {
 		return []openapi3.SchemaValidationOption{openapi3.MultiErrors(), openapi3.SetSchemaErrorMessageCustomizer(customizer)}
 	}},
